@@ -1,6 +1,7 @@
 package clientc
 
 import (
+	"sync"
 	"context"
 	"errors"
 	"fmt"
@@ -61,6 +62,14 @@ type concWorld struct {
 	retLog   int           // transport log length when Unlock / Close returned
 	retAt    time.Duration // virtual time of that return
 	otherKey string        // key of the second, untouched hold "y" (program 3)
+	evMu     sync.Mutex
+	evs      []string // event log for the validation of M5c (driver linclient)
+}
+
+func (cw *concWorld) ev(e string) {
+	cw.evMu.Lock()
+	cw.evs = append(cw.evs, e)
+	cw.evMu.Unlock()
 }
 
 func newConcWorld(second bool) *concWorld {
@@ -75,6 +84,14 @@ func newConcWorld(second bool) *concWorld {
 		return cw
 	}
 	cw.key = lk.Key
+	cw.evs = []string{"hist"}
+	w.tr.mu.Lock()
+	w.tr.onEv = func(e, name, key string) {
+		if e == "connclose" || name == cw.name && (key == cw.key || key == "") {
+			cw.ev(e)
+		}
+	}
+	w.tr.mu.Unlock()
 	if second { // an independent hold on another name, never unlocked; taken 1 s later so that the two
 		// renewers never fire at the same instant (their thread names would depend on the Go scheduler)
 		time.Sleep(time.Second)
@@ -94,6 +111,7 @@ func (cw *concWorld) finish(what string) conc.Outcome {
 		return conc.Outcome{Key: "setup-failed: " + cw.err}
 	}
 	synctest.Wait()
+	cw.ev("tick")
 	time.Sleep(3 * 40 * time.Second) // a surviving renewer shows itself within one interval
 	synctest.Wait()
 	log := cw.tr.snapshot()
@@ -117,7 +135,10 @@ func (cw *concWorld) finish(what string) conc.Outcome {
 			otherRenews++
 		}
 	}
-	d := map[string]any{"rpcs": log, "returned": cw.done, "returned_at_ns": int64(cw.retAt), "renews_before_return": before, "renews_after_return": after,
+	cw.evMu.Lock()
+	hist := strings.Join(cw.evs, "\n")
+	cw.evMu.Unlock()
+	d := map[string]any{"m5c_history": hist, "rpcs": log, "returned": cw.done, "returned_at_ns": int64(cw.retAt), "renews_before_return": before, "renews_after_return": after,
 		"still_held_at_end": cw.held(cw.name, cw.key)}
 	if firstAfter != nil {
 		d["first_renew_after_return"] = *firstAfter
@@ -145,10 +166,15 @@ func concPrograms() []conc.Program {
 			Setup: func() any { return newConcWorld(false) },
 			Threads: []conc.Thread{{Name: "U", Run: func(c any) {
 				cw := c.(*concWorld)
+				cw.ev("inv u")
 				cw.panicked = guard(func() { cw.ok, cw.uerr = cw.c.Unlock(cw.name, cw.key) })
+				if cw.panicked == "" {
+					cw.ev("ret u")
+				}
 				cw.done, cw.retLog, cw.retAt = true, cw.tr.len(), cw.now()
 			}}},
 			Ticks:  []time.Duration{10 * time.Second},
+			OnTick: func(c any, i int) { c.(*concWorld).ev("tick") },
 			Finish: func(c any) conc.Outcome { return c.(*concWorld).finish("unlock") },
 		},
 		{
@@ -156,10 +182,15 @@ func concPrograms() []conc.Program {
 			Setup: func() any { return newConcWorld(false) },
 			Threads: []conc.Thread{{Name: "C", Run: func(c any) {
 				cw := c.(*concWorld)
+				cw.ev("inv c")
 				cw.panicked = guard(func() { cw.uerr = cw.c.Close(); cw.ok = cw.uerr == nil })
+				if cw.panicked == "" {
+					cw.ev("ret c")
+				}
 				cw.done, cw.retLog, cw.retAt = true, cw.tr.len(), cw.now()
 			}}},
 			Ticks:  []time.Duration{10 * time.Second},
+			OnTick: func(c any, i int) { c.(*concWorld).ev("tick") },
 			Finish: func(c any) conc.Outcome { return c.(*concWorld).finish("close") },
 		},
 		{
@@ -167,12 +198,17 @@ func concPrograms() []conc.Program {
 			Setup: func() any { return newConcWorld(true) },
 			Threads: []conc.Thread{{Name: "U", Run: func(c any) {
 				cw := c.(*concWorld)
+				cw.ev("inv u")
 				cw.panicked = guard(func() { cw.ok, cw.uerr = cw.c.Unlock(cw.name, cw.key) })
+				if cw.panicked == "" {
+					cw.ev("ret u")
+				}
 				cw.done, cw.retLog, cw.retAt = true, cw.tr.len(), cw.now()
 			}}},
 			// one 11 s tick: x's renewer wakes at 10 s, y's (granted 1 s later) at 11 s, both are parked when
 			// the tick returns, registered in that order
 			Ticks:  []time.Duration{11 * time.Second},
+			OnTick: func(c any, i int) { c.(*concWorld).ev("tick") },
 			Finish: func(c any) conc.Outcome { return c.(*concWorld).finish("unlock") },
 		},
 	}
@@ -188,6 +224,7 @@ func runConcPart(t *testing.T, res *common.Result, rng *common.Rng) {
 	for pi, p := range concPrograms() {
 		bound := bounds[pi]
 		outcomes := map[string]int{}
+		hists := map[string]func() map[string]any{} // distinct event histories of the hold's goroutine and the stopper (M5c validation)
 		afterSig := map[bool]string{true: "client:renew-after-unlock", false: "client:renew-after-close"}[pi != 1]
 		visit := func(kind string) func(conc.RunResult) bool {
 			return func(r conc.RunResult) bool {
@@ -223,6 +260,21 @@ func runConcPart(t *testing.T, res *common.Result, rng *common.Rng) {
 				if len(cs) > 0 {
 					key += " panic=[" + strings.Join(cs, ";") + "]"
 				}
+				if hh, ok := r.Outcome.Detail["m5c_history"].(string); ok && len(r.Blocked) == 0 && r.Deadlock == "" {
+					np := 0
+					for _, pn := range r.Panics {
+						if _, class, _ := panicClass(pn); class == "error renewing lock" {
+							np++
+						}
+					}
+					hh += fmt.Sprintf("\nquiet %d\nfin", min(np, 1))
+					if _, seen := hists[hh]; !seen && (len(cs) == 0 || len(cs) == 1 && cs[0] == "error renewing lock") {
+						tr, name := append([]string{}, r.Trace...), p.Name
+						hists[hh] = func() map[string]any {
+							return map[string]any{"part": "b-interleavings", "program": name, "exploration": kind, "schedule": tr, "schedule_compressed": conc.Compress(tr), "seed": common.Seed()}
+						}
+					}
+				}
 				if n, _ := r.Outcome.Detail["renews_after_return"].(int); n > 0 {
 					first, _ := r.Outcome.Detail["first_renew_after_return"].(rpcRec)
 					find(afterSig, fmt.Sprintf("%d Renew RPC(s) for the hold were sent after %s had returned (returned at %v, first such renew at %v); required: none", n, strings.SplitN(p.Name, "||", 2)[0], time.Duration(r.Outcome.Detail["returned_at_ns"].(int64)), time.Duration(first.AtNs)))
@@ -245,6 +297,10 @@ func runConcPart(t *testing.T, res *common.Result, rng *common.Rng) {
 			res.Count("part:b-dfs-exhausted:" + p.Name)
 		}
 		conc.ExploreRandom(t, p, nRandom, rng.Fork(uint64(pi)), visit("random"))
+		if err := common.ValidateHistories(res, prop, "linclient", "client:trace:m5c-model@"+p.Name, "the client stop-protocol model M5c", hists); err != nil {
+			t.Fatal(err)
+		}
+		res.CountN("part:b-m5c-histories-validated:"+p.Name, len(hists))
 		ks := common.SortedKeys(outcomes)
 		sort.SliceStable(ks, func(i, j int) bool { return outcomes[ks[i]] > outcomes[ks[j]] })
 		for _, k := range ks {
